@@ -3,7 +3,7 @@
    sumor mapped to OCaml's own types); Z, N, positive, nat stay the extracted inductives. *)
 From Coq Require Extraction ExtrOcamlBasic.
 From BV Require Import Alg.Field Alg.Dlog Sem.Base Model.Oracles Model.Helpers Model.Varint
-     Model.Core Model.Protocols Model.Api Extract.Exec.
+     Model.Core Model.Protocols Model.Api Model.Codec Extract.Exec.
 Extraction Language OCaml.
 Extraction "model.ml"
   Zr zr_repr zr_unrepr zr_sdec zr_of_u64 r_mod
@@ -30,4 +30,12 @@ Extraction "model.ml"
   scct_create_decryption_share scct_decrypt_with_shares scct_decrypt scct_is_valid
   sk_sign_decryption_key scdk_decrypt scdk_from_shares sds_verify tlct_decrypt
   egct_decrypt egct_add egdk_decrypt egdk_from_shares egp_verify egp_verify_and_decrypt
-  sk_new sk_from_hash sk_split_entropy.
+  sk_new sk_from_hash sk_split_entropy
+  pk_to_bytes pk_try_from pop_to_bytes pop_try_from sk_to_bytes sk_try_from
+  sk_enum_to_bytes sk_enum_try_from sk_enum_from_be_bytes
+  tagged_to_bytes signature_try_from multisig_try_from commitment_try_from
+  pok_to_bytes pok_try_from pokts_to_bytes pokts_try_from
+  share_to_bytes sk_share_try_from pk_share_try_from eg_share_try_from inner_share_try_from
+  sig_share_to_bytes sig_share_try_from scct_to_bytes scct_try_from pk_bare_try_from
+  tlct_to_bytes tlct_try_from egct_to_bytes egct_try_from egp_to_bytes egp_try_from
+  scheme_of_u8 u8_of_scheme curve_of_u8 u8_of_curve.
